@@ -3,6 +3,7 @@ CONSTANTS Writers = {w1, w2}
  Datas = {d1, d2}
  XorEncoding = FALSE
  MaxStores = 3
+ RereadData = FALSE
 SPECIFICATION Spec
 INVARIANT HitIsAUnit
 CHECK_DEADLOCK FALSE
